@@ -1,6 +1,7 @@
 package main
 
 import (
+	"regexp"
 	"go/ast"
 	"encoding/json"
 	"flag"
@@ -196,13 +197,14 @@ func cmdCheck(record bool, args []string) int {
 	if !*keep {
 		defer os.RemoveAll(workDir)
 	}
-	timeout := 20
+	timeout := 30
 	if *tier == "thorough" {
 		timeout = 60
 	}
 	type job struct {
 		o    *Obligation
 		file string
+		alt  string // the same query with no assumption pruned (raced as a fallback), "" if nothing was pruned
 	}
 	var jobs []job
 	var funcsUnder []string
@@ -225,18 +227,31 @@ func cmdCheck(record bool, args []string) int {
 			file := filepath.Join(workDir, sanitize(o.Name)+".smt2")
 			var b strings.Builder
 			b.WriteString(res.Decls)
-			for _, c := range res.Cons[:o.PrefixLen] {
-				b.WriteString("(assert ")
-				b.WriteString(c)
-				b.WriteString(")\n")
+			full := res.Cons[:o.PrefixLen]
+			pruned := pruneCons(full, o.At.S)
+			mk := func(cons []string) string {
+				var b strings.Builder
+				b.WriteString(res.Decls)
+				for _, c := range cons {
+					b.WriteString("(assert ")
+					b.WriteString(c)
+					b.WriteString(")\n")
+				}
+				fmt.Fprintf(&b, "; obligation %s\n; %s\n(assert %s)\n(assert (not %s))\n(check-sat)\n", o.Name, strings.ReplaceAll(o.Clause, "\n", " "), o.At.S, o.Goal.S)
+				if !o.Cover {
+					b.WriteString("(get-model)\n")
+				}
+				body := b.String()
+				return smtHeader(body) + body
 			}
-			fmt.Fprintf(&b, "; obligation %s\n; %s\n(assert %s)\n(assert (not %s))\n(check-sat)\n", o.Name, strings.ReplaceAll(o.Clause, "\n", " "), o.At.S, o.Goal.S)
-			if !o.Cover {
-				b.WriteString("(get-model)\n")
+			_ = b
+			writeFile(file, mk(pruned))
+			alt := ""
+			if len(pruned) != len(full) && !o.Cover {
+				alt = strings.TrimSuffix(file, ".smt2") + ".full.smt2"
+				writeFile(alt, mk(full))
 			}
-			body := b.String()
-			writeFile(file, smtHeader(body)+body)
-			jobs = append(jobs, job{o, file})
+			jobs = append(jobs, job{o, file, alt})
 		}
 	}
 	// audit of nondeterminism sources below the given roots: each must sit in a function under contract
@@ -331,7 +346,7 @@ func cmdCheck(record bool, args []string) int {
 	lj, lerrs := lemmaJobs(w, pc, workDir)
 	translErrs = append(translErrs, lerrs...)
 	for _, j := range lj {
-		jobs = append(jobs, job{j.o, j.file})
+		jobs = append(jobs, job{j.o, j.file, ""})
 	}
 	tTrans := time.Since(t0).Seconds() - tLoad
 	// solve
@@ -350,7 +365,7 @@ func cmdCheck(record bool, args []string) int {
 				r = runSolverSimple("z3-new", j.file, 1)
 				all = []SolverResult{r}
 			} else {
-				r, all = raceSolvers(j.file, timeout, *tier == "thorough")
+				r, all = raceSolvers(j.file, j.alt, timeout, *tier == "thorough")
 			}
 			results[i] = &OblResult{Name: j.o.Name, Func: j.o.Func, Kind: j.o.Kind, Status: r.Status, Solver: r.Solver, Secs: r.Secs, Pos: j.o.Pos, Clause: j.o.Clause, Cover: j.o.Cover, File: j.file, Output: r.Output, All: all}
 		}(i, j)
@@ -527,4 +542,62 @@ func cmdBinds(args []string) int {
 		}
 	}
 	return 0
+}
+
+var atomRe = regexp.MustCompile(`at_b\d+(?:_p\d+)?`)
+
+// pruneCons drops the assumptions that are guarded by the reachability atom of a block which is not an ancestor of the
+// obligation's program point (the atoms reachable from the obligation's own condition through the atoms' definitions).
+// Dropping assumptions is sound; these cannot contribute: their guard is false on every path through the obligation's
+// point. It keeps quantified facts of unrelated paths (e.g. the postconditions at return blocks) out of the query.
+func pruneCons(cons []string, at string) []string {
+	if os.Getenv("GOVC_NOPRUNE") != "" {
+		return cons
+	}
+	start := atomRe.FindAllString(at, -1)
+	if len(start) == 0 {
+		return cons
+	}
+	defs := map[string][]string{}
+	for _, c := range cons {
+		if strings.HasPrefix(c, "(= at_b") {
+			rest := c[3:]
+			i := strings.IndexAny(rest, " )")
+			if i < 0 {
+				continue
+			}
+			defs[rest[:i]] = atomRe.FindAllString(rest[i:], -1)
+		}
+	}
+	rel := map[string]bool{}
+	var visit func(a string)
+	visit = func(a string) {
+		if rel[a] {
+			return
+		}
+		rel[a] = true
+		for _, d := range defs[a] {
+			visit(d)
+		}
+	}
+	for _, a := range start {
+		visit(a)
+	}
+	out := make([]string, 0, len(cons))
+	for _, c := range cons {
+		guard := ""
+		switch {
+		case strings.HasPrefix(c, "(=> at_b"):
+			guard = atomRe.FindString(c[4:])
+		case strings.HasPrefix(c, "(=> (and at_b"):
+			guard = atomRe.FindString(c[9:])
+		case strings.HasPrefix(c, "(= at_b"):
+			guard = atomRe.FindString(c[3:])
+		}
+		if guard != "" && !rel[guard] {
+			continue
+		}
+		out = append(out, c)
+	}
+	return out
 }
